@@ -53,7 +53,8 @@ def tomo_case(draw, n=None):
             prog["hpos"] = sorted(draw(st.lists(st.integers(0, 2 * n + k - 1), unique=True, min_size=k, max_size=k)))
     return {"prog": prog, "edit": draw(st.booleans()), "edit_seed": draw(st.integers(0, 999)),
             "ulp_seed": draw(st.one_of(st.none(), st.integers(0, 10 ** 6))),
-            "scale_seed": draw(st.one_of(st.none(), st.integers(0, 10 ** 6)))}
+            "scale_seed": draw(st.one_of(st.none(), st.integers(0, 10 ** 6))),
+            "n_args": draw(st.sampled_from([0, 0, 1, 2])), "args_given": draw(st.booleans())}
 
 
 def run_tomo(case):
@@ -65,19 +66,30 @@ def run_tomo(case):
     V = qubits.reference_unitary(prog)
     received = []
 
-    def experiment(circuits):
+    # optional extra arguments for the callback (experiment_args): 0-2 distinct objects, passed through untouched
+    extra = [("arg", k) for k in range(case.get("n_args", 0))]
+
+    def experiment(circuits, *args):
+        if list(args) != extra or any(a is not b for a, b in zip(args, extra)):
+            raise Violation(f"experiment callback received extra arguments {args!r}, experiment_args was {extra!r}",
+                            key="experiment-args")
         received.append(list(circuits))
         us, ss = case.get("ulp_seed"), case.get("scale_seed")
         return [qubits.exact_counts(c, n, [1, 0] * n, qubits.ulp_choice(us, i), scale=qubits.scale_choice(ss, i))
                 for i, c in enumerate(circuits)]
 
-    tomo = call("StateTomography()", tomography.StateTomography, n, base, experiment)
+    if extra or case.get("args_given"):
+        tomo = call("StateTomography()", tomography.StateTomography, n, base, experiment, experiment_args=extra)
+    else:
+        tomo = call("StateTomography()", tomography.StateTomography, n, base, experiment)
     snap = snapshot(base)
     labels = set()
 
     def one_round(V, tag):
         received.clear()
         rho = call("process", tomo.process)
+        if not np.array_equal(np.asarray(tomo.rho), np.asarray(rho)):
+            raise Violation("the rho attribute differs from the matrix process() returned", key="rho-attribute")
         if snapshot(base) != snap_now[0]:
             raise Violation("state tomography changed its base circuit", key="base-circuit-modified")
         circs = received[0]
